@@ -182,14 +182,14 @@ Example C03_spsc_recycle_monitor_can_trip :
 Proof. vm_compute. reflexivity. Qed.
 
 (* a hand-written trace of the real event format is accepted (block size 2): push 7, push 8 (block end,
-   fresh block at address 4096), pop -> 7, pop -> 8 (block end), pop -> empty *)
+   fresh block at address 4096), pop -> 7, pop -> 8 (block end), pop -> empty; 34 = the slot read, on the very slot object that was written *)
 Local Open Scope Z_scope.
 Example C03_spsc_nonvacuous_accepted_trace :
   match accept_all 2 a_init
     [[1;1;0;7]; [20;1;1;0]; [26;1;2;1]; [2;1;0;0];
      [1;1;0;8]; [20;1;3;1]; [22;1;4;512]; [24;1;5;4096]; [25;1;6;4096]; [26;1;2;2]; [2;1;0;0];
-     [3;2;0;0]; [30;2;2;2]; [33;2;7;1]; [4;2;1;7];
-     [3;2;0;0]; [30;2;2;2]; [31;2;5;4096]; [32;2;8;4096]; [33;2;7;2]; [4;2;1;8];
+     [3;2;0;0]; [30;2;2;2]; [34;2;1;0]; [33;2;7;1]; [4;2;1;7];
+     [3;2;0;0]; [30;2;2;2]; [34;2;3;1]; [31;2;5;4096]; [32;2;8;4096]; [33;2;7;2]; [4;2;1;8];
      [3;2;0;0]; [30;2;2;2]; [4;2;0;0]] with
   | Some sx => popped (Q (fst sx)) = [7%nat; 8%nat] /\ a_final sx = true
   | None => False
